@@ -164,6 +164,17 @@ pub fn case_s() -> BoxedStrategy<PCase> {
             for t in tweaks {
                 code.push(ins0(t));
             }
+            // one program in three defines one or two procedures (closing brace = implied ret, or a written ret) and calls
+            // them before it prints: print statements are then not the only statements without an operand
+            let nprocs = if choices[5] % 3 == 0 { 1 + (choices[6] as usize & 1) } else { 0 };
+            for k in 0..nprocs {
+                let mut body = vec![ins0("nop")];
+                if choices[7] >> k & 1 == 1 {
+                    body.push(ins0("ret"));
+                }
+                code.insert(k, Item::Proc { name: format!("p17_{}", k), body });
+                code.push(Item::Ins(Insn::new("call", vec![Opd::Name(format!("p17_{}", k))])));
+            }
             let mut script: Vec<PromptCmd> = Vec::new();
             if variant == 0 {
                 // the same commands typed at the prompt of an int 3
@@ -278,6 +289,9 @@ pub fn eval_with(c: &PCase, refusal_any: bool, interpreted: bool) -> CaseOutcome
     }
     // classes
     let mut classes = vec![if c.script.is_empty() { "c17/in-program".to_string() } else { "c17/at-prompt".to_string() }];
+    if c.prog.code.iter().any(|i| matches!(i, Item::Proc { .. })) {
+        classes.push("c17/program-with-procedures".into());
+    }
     if c.prog.code.iter().any(|i| matches!(i, Item::Label(n) if n == "again")) {
         classes.push("c17/same-statement-again-after-the-state-changed".into());
         if c.prog.code.iter().any(|i| matches!(i, Item::Print(PrintStmt::MemDs(_)))) {
@@ -488,6 +502,7 @@ pub fn run(ctx: &Ctx) {
     ctx.require_class("c17/at-prompt", 50);
     ctx.require_class("c17/mem-len-not-multiple-of-16", 50);
     ctx.require_class("c17/refused", 5);
+    ctx.require_class("c17/program-with-procedures", 50);
     ctx.require_class("c17/same-statement-again-after-the-state-changed", 50);
     ctx.require_class("c17/ds-relative-dump-again-after-DS-changed", 20);
 }
